@@ -253,23 +253,44 @@ def has_map(path):
     return any(isinstance(p, tuple) for p in path)
 
 
-def to_real(ast):
+class _SharedBases(dict):
+    """One TagQuery() / FieldQuery() / ... object per query type, reused for every atom of an expression - the way
+    applications write `F = FieldQuery(); (F.a > 1) & (F.b < 5)`."""
+
+    def __init__(self, classes):
+        super().__init__()
+        self._classes = classes
+        self._made = {}
+
+    def __getitem__(self, attr):
+        def get():
+            if attr not in self._made:
+                self._made[attr] = self._classes[attr]()
+            return self._made[attr]
+
+        return get
+
+
+def to_real(ast, _bases=None):
     """Build the genuine tinyflux query object for an AST."""
     from tinyflux.queries import FieldQuery, MeasurementQuery, TagQuery, TimeQuery
 
-    base = {
+    classes = {
         "time": TimeQuery,
         "measurement": MeasurementQuery,
         "tags": TagQuery,
         "fields": FieldQuery,
     }
+    if _bases is None and ast[0] in ("and", "or", "not") and len(repr(ast)) % 2 == 0:
+        _bases = _SharedBases(classes)  # every other compound expression shares its base query objects
+    base = _bases if _bases is not None else classes
     kind = ast[0]
     if kind == "not":
-        return ~to_real(ast[1])
+        return ~to_real(ast[1], _bases)
     if kind == "and":
-        return to_real(ast[1]) & to_real(ast[2])
+        return to_real(ast[1], _bases) & to_real(ast[2], _bases)
     if kind == "or":
-        return to_real(ast[1]) | to_real(ast[2])
+        return to_real(ast[1], _bases) | to_real(ast[2], _bases)
     q = base[ast[1]]()
     if kind == "noop":
         # noop() matches every point - also when it is called on a query that already names a key or a map function
